@@ -546,6 +546,7 @@ func runC09(c *Ctx) int {
 	}
 	c09AttackKill(c, run)
 	c09Fault(c, run)
+	c09EncodeFault(c, run)
 	run.Floor("attack_kill_runs", int64(c.Pick(3, 6)))
 	run.Floor("cli_cut_runs/gob", int64(nCLI)/3)
 	run.Floor("cli_cut_runs/json", int64(nCLI)/3)
